@@ -122,7 +122,7 @@ PLANS = {
                       dict(family="rand", rand=FLAT, invariants=['Inv_C03'], properties=['Prop_C03'], tier=1),
                       dict(family="alloc", invariants=["Inv_C03"], properties=["Prop_C03"]),
                       dict(family="place", invariants=["Inv_C03"], properties=["Prop_C03"]))),
-    "C04": dict(cases=step_cases(["alloc", "place", "conveyor", "pairs"], FULL),
+    "C04": dict(cases=step_cases(["alloc", "place", "conveyor", "pairs", "fixed"], FULL),
                 l1=l1(dict(family="pairs", invariants=["Inv_C04"], properties=["Prop_C04"]),
                       dict(family="rand", rand=FLAT, invariants=['Inv_C04'], properties=['Prop_C04'], tier=1),
                       dict(family="alloc", invariants=["Inv_C04"], properties=["Prop_C04"]),
@@ -131,7 +131,7 @@ PLANS = {
                            lambda tier, seed: _sim(families.sample(families.export_family("deps4", 1), 300 if tier == "quick" else 5000, seed))),
                 l1=l1(dict(family="deps", invariants=["Inv_C05"], properties=["Live_C05"]),
                       dict(family="abs", invariants=["Inv_C05"]))),
-    "C06": dict(cases=step_cases(["deps", "alloc", "pairs", "deps2", "edge"], FULL),
+    "C06": dict(cases=step_cases(["deps", "alloc", "pairs", "deps2", "edge", "fixed"], FULL),
                 l1=l1(dict(family="rand", rand=FLAT, invariants=['Inv_C06'], properties=['Prop_C06'], tier=1),
                       dict(family="deps", invariants=["Inv_C06"], properties=["Prop_C06"]),
                       dict(family="alloc", invariants=["Inv_C06"], properties=["Prop_C06"]))),
@@ -143,8 +143,8 @@ PLANS = {
                 l1=l1(dict(family="abs", invariants=["Inv_C08"]))),
     "C10": dict(cases=step_cases(["abs", "pairs"], FULL),
                 l1=l1(dict(family="abs", invariants=["Inv_C10", "Inv_C10H"], properties=["Prop_C10"]))),
-    "C11": dict(cases=both(sort_cases(), step_cases(["alloc", "edge"], FULL, nq=400, rq=300)),
-                l1=l1(dict(family="alloc", properties=["Prop_C11"]))),
+    "C11": dict(cases=both(sort_cases(), step_cases(["alloc", "edge", "pairs", "fixed"], FULL, nq=400, rq=300)),
+                l1=l1(dict(family="alloc", properties=["Prop_C11"]), dict(family="pairs", properties=["Prop_C11"]))),
     "C12": dict(cases=step_cases(["pert"], dict(facilities=False, components=False, kinds=["FS"])),
                 l1=l1(dict(family="pert", invariants=["Inv_C12"]))),
     "C13": dict(cases=step_cases(["place", "conveyor"], FULL),
@@ -577,6 +577,41 @@ def c05_edit_cases(tier, seed):
     return out
 
 
+def c09_retarget_cases(tier, seed):
+    """The organization is edited between two runs (a team is put in charge of one more task, the
+    absence calendar of a worker is changed): the second run has to be the run of the edited
+    model - nothing derived from the old model may survive the first run."""
+    rng = _random.Random(seed + 909)
+    out = []
+    for cfg in _pool(tier, seed, ["alloc", "abs"], 120, 1200, dict(components=False, facilities=False), 80, 800, prefix="G"):
+        cands = [(tm, i) for i, t in enumerate(cfg["tasks"], 1) for tm in range(1, cfg["nTeam"] + 1)
+                 if tm not in t["teams"]]
+        if cands:
+            tm, ti = rng.choice(cands)
+            ops = [{"op": "simulate", "light": True}, {"op": "add_team_target", "team": tm, "task": ti},
+                   {"op": "simulate"}, {"op": "rebuild"}, _cmp({"op": "simulate", "light": True}, 3, "C09", "lg")]
+            out.append(_hist(cfg, "c09team", ops))
+        if cfg["workers"]:
+            w = rng.randint(1, len(cfg["workers"]))
+            old = cfg["workers"][w - 1]["abs"]
+            L = sorted(set(rng.sample(range(0, 6), rng.randint(1, 3))))
+            if L == sorted(old):
+                L = [x + 1 for x in L]
+            ops = [{"op": "simulate", "light": True}, {"op": "edit_abs", "who": "worker", "i": w, "L": L},
+                   {"op": "simulate"}, {"op": "rebuild"}, _cmp({"op": "simulate", "light": True}, 3, "C09", "lg")]
+            out.append(_hist(cfg, "c09abs", ops))
+    for cfg in _pool(tier, seed, ["pairs"], 60, 600, None, prefix="G"):
+        if cfg["facs"]:
+            f = rng.randint(1, len(cfg["facs"]))
+            L = sorted(set(rng.sample(range(0, 5), rng.randint(1, 2))))
+            if L == sorted(cfg["facs"][f - 1]["abs"]):
+                L = [x + 1 for x in L]
+            ops = [{"op": "simulate", "light": True}, {"op": "edit_abs", "who": "fac", "i": f, "L": L},
+                   {"op": "simulate"}, {"op": "rebuild"}, _cmp({"op": "simulate", "light": True}, 3, "C09", "lg")]
+            out.append(_hist(cfg, "c09fabs", ops))
+    return out
+
+
 def _topo(n, deps):
     preds = {i: set() for i in range(1, n + 1)}
     for p, s, _ in deps:
@@ -655,6 +690,10 @@ def tlc_hist_cases(family, base_fams, nbase_q=3, nbase_t=12):
 PLANS["C05"]["cases"] = both(PLANS["C05"]["cases"], c05_maxtime_cases, c05_edit_cases)
 PLANS["C07"]["cases"] = both(PLANS["C07"]["cases"], tlc_hist_cases("histC18", ["pairs", "alloc"], 1, 4))
 PLANS["C01"]["cases"] = both(PLANS["C01"]["cases"], c01_edit_cases)
+# edits of the model between two runs: no run may depend on what an earlier run derived
+PLANS["C09"]["cases"] = both(PLANS["C09"]["cases"], c01_edit_cases, c05_edit_cases, c09_retarget_cases)
+# an edited absence calendar is the calendar of the next run
+PLANS["C10"]["cases"] = both(PLANS["C10"]["cases"], c09_retarget_cases)
 PLANS["C08"]["cases"] = both(PLANS["C08"]["cases"], c08_hist_cases, unit2_cases(),
                                tlc_hist_cases("histC08", ["deps", "placeflat"], 1, 6))
 PLANS["C18"]["cases"] = both(PLANS["C18"]["cases"], tlc_hist_cases("histC18", ["abs", "placeflat"], 1, 6))
@@ -730,7 +769,10 @@ _more_l1("C02", dict(family="placeflat", invariants=["Inv_C02"], properties=["Pr
          dict(family="conveyor", invariants=["Inv_C02"], properties=["Prop_C02"]))
 _more_l1("C03", dict(family="conveyor", invariants=["Inv_C03"], properties=["Prop_C03"]),
          dict(family="abs", invariants=["Inv_C03"], properties=["Prop_C03"]))
-_more_l1("C04", dict(family="conveyor", invariants=["Inv_C04"], properties=["Prop_C04"]))
+_more_l1("C04", dict(family="conveyor", invariants=["Inv_C04"], properties=["Prop_C04"]),
+         dict(family="fixed", invariants=["Inv_C04"], properties=["Prop_C04"], quick=True))
+_more_l1("C06", dict(family="fixed", invariants=["Inv_C06"], properties=["Prop_C06"], quick=True))
+_more_l1("C11", dict(family="fixed", properties=["Prop_C11"], quick=True))
 _more_l1("C05", dict(family="alloc", invariants=["Inv_C05"], properties=["Live_C05"], tier=1),
          dict(family="deps2", invariants=["Inv_C05"], properties=["Live_C05"]),
          dict(family="deps4", invariants=["Inv_C05"], tier=1))
